@@ -415,6 +415,9 @@ def units(prop, tier):
             us.append(_unit(prop, 'decrypt_and_verify', nxt, cfg, cfg2='s2'))
     elif prop == 'C02':
         us.append(_unit(prop, '__init__', cfg='init'))
+        # B0 and the encoding of the AAD length (SP 800-38C A.2.1/A.2.2) are part of "computes its specification" as much as of the tag
+        # check (seeded change C02-ccm-aad-length-encoding-65280 was first caught under C02 by the bounded harness only)
+        us += [_unit(prop, '_start_mac', cfg='dd', shape=n) for n in ((2,) if q else (0, 1, 2, 3))]
         for nxt, cfg in ((('all', 's1'),) if q else (('all', 's1'), ('all', 'nn'), ('all', 'nd'), ('all', 'dn'), ('ed', 's2'))):
             us.append(_unit(prop, 'encrypt_and_digest', nxt, cfg, cfg2='s2'))
     elif prop == 'C09':
